@@ -332,7 +332,9 @@ def flatten(case, payloads):
     for gi, pl in enumerate(payloads):
         for key in sorted(pl):
             v = pl[key]
-            if isinstance(v, float) or (case.get("trace_arrays") and isinstance(v, np.ndarray)):
+            # arrays: only the Interferometer matrix (GaussianHamiltonian / GaussianTransform
+            # / SNAP arrays cannot be traced: TracerArrayConversionError at trace time)
+            if isinstance(v, float) or (case.get("trace_arrays") and key == "matrix"):
                 slots.append((gi, key))
                 leaves.append(v)
     return leaves, slots
@@ -478,7 +480,9 @@ def prop_program(case, ctx):
                         f"NumPy connector runs the program, {conn}/{mode} raises "
                         f"{type(err).__name__}: {str(err)[:400]}")
     tol = TOL[case.get("dtype", "f64")]
-    for name in list(core) + list(extras):
+    order = list(extras)
+    k = len(case["gates"]) % max(1, len(order))
+    for name in list(core) + order[k:] + order[:k]:
         r, g = ref.get(name), got.get(name)
         if isinstance(r, Exception):
             ctx.count(f"numpy_raises:{name}")
